@@ -251,7 +251,10 @@ def check_one(layer, c, tmp, acc):
             return 'parent-id-0' if zero_parent else 'structure'
         return layer
 
-    f1, f2, f3 = (os.path.join(tmp, x) for x in ('f1.csv', 'f2.csv', 'f3.csv'))
+    # the three ways to name a file: bare name in the current directory (the README's form), relative with a directory part,
+    # absolute. The worker's current directory is its scratch directory.
+    f1, f2, f3 = ('f1.csv', './f2.csv', os.path.join(tmp, 'f3.csv')) if os.getcwd() == os.path.realpath(tmp) else \
+        tuple(os.path.join(tmp, x) for x in ('f1.csv', 'f2.csv', 'f3.csv'))
     try:
         w = c.build()
         write_csv(w, f1)
@@ -379,11 +382,14 @@ def check_one(layer, c, tmp, acc):
 def _work(chunk):
     i, n = chunk
     acc = runtime.Acc()
-    tmp = tempfile.mkdtemp(prefix='vf_c13_')
+    tmp = os.path.realpath(tempfile.mkdtemp(prefix='vf_c13_'))
+    cwd = os.getcwd()
     try:
+        os.chdir(tmp)
         for layer, c in itertools.islice(contents(_TIER), i, None, n):
             check_one(layer, c, tmp, acc)
     finally:
+        os.chdir(cwd)
         shutil.rmtree(tmp, ignore_errors=True)
     return acc
 
@@ -412,8 +418,10 @@ def run(rep):
 
 def replay(data):
     rc = 0
-    tmp = tempfile.mkdtemp(prefix='vf_c13_')
+    tmp = os.path.realpath(tempfile.mkdtemp(prefix='vf_c13_'))
+    cwd = os.getcwd()
     try:
+        os.chdir(tmp)
         for ex in data.get('examples', []):
             c = Content.from_json(ex['case']['content'])
             acc = runtime.Acc()
@@ -422,6 +430,7 @@ def replay(data):
                 print(sig, exs[0]['message'])
                 rc = 1
     finally:
+        os.chdir(cwd)
         shutil.rmtree(tmp, ignore_errors=True)
     print('REPRODUCED' if rc else 'not reproduced')
     return rc
